@@ -298,6 +298,43 @@ def opItml : P String := do
   let (s, it) := itmlRun γ tol numPos vs maxIter 0 s0 s0.lam
   return s!"ok {it} " ++ renderArr ((Mat.ofStore s.A).toArray ++ s.lam.toArray ++ s.bhat.toArray)
 
+def readVecs (K : Type) [Wire K] [Scalar K] (n d : Nat) : P (List (Vec K d)) := do
+  let a ← arr K (n * d)
+  return (List.range n).map fun r => (fun j : Fin d => a.getD (r * d + j.val) 0)
+
+/-- C14 ops (Float twin of MMC's helper functions) -/
+def opMmc (op : String) : P String := do
+  let d ← nat
+  match op with
+  | "mmc_budget" => do
+      let np ← nat; let S ← readVecs Float np d
+      let A0 := Mat.ofStore (← readStore Float d d); let A := Mat.ofStore (← readStore Float d d); finish
+      let t := mmcBudget S A0
+      return "ok " ++ renderArr #[t, mmcSimilarSum S A, if mmcSatisfied S A t then 1.0 else 0.0]
+  | "mmc_fd" => do
+      let nn ← nat; let D ← readVecs Float nn d
+      let A := Mat.ofStore (← readStore Float d d); finish
+      let g := (mmcFD1 D A).store
+      return "ok " ++ renderArr (#[mmcFD D A] ++ (Mat.ofStore g).toArray)
+  | "mmc_gradproj" => do
+      let g1 := Mat.ofStore (← readStore Float d d); let g2 := Mat.ofStore (← readStore Float d d); finish
+      let g := (mmcGradProjection g1 g2).store
+      return "ok " ++ renderArr (Mat.ofStore g).toArray
+  | "mmc_halfspace" => do
+      let w := Mat.ofStore (← readStore Float d d); let A := Mat.ofStore (← readStore Float d d)
+      let t ← scalar Float; finish
+      let g := (halfspaceProject w A t).store
+      return "ok " ++ renderArr (Mat.ofStore g).toArray
+  | "mmc_psdproj" => do
+      let V := Mat.ofStore (← readStore Float d d); let l := Vec.ofArray (← arr Float d) d; finish
+      let g := (psdProject V l).store
+      return "ok " ++ renderArr (Mat.ofStore g).toArray
+  | "mmc_dobj" => do
+      let nn ← nat; let D ← readVecs Float nn d
+      let w := Vec.ofArray (← arr Float d) d; finish
+      return "ok " ++ Wire.render (mmcDObjective D w)
+  | _ => throw s!"unknown op {op}"
+
 def optInt : P (Option Int) := do
   let t ← next
   if t == "none" then return none
@@ -336,6 +373,7 @@ def dispatch : P String := do
   | "sdp_check" | "cfm_eig" | "cfm_diag" | "pinv_eig" | "init_metric" => opPsd op
   | "pairs" | "chunks" | "knn_class" | "knn_clip" => opConstraints op
   | "form" => opForm
+  | "mmc_budget" | "mmc_fd" | "mmc_gradproj" | "mmc_halfspace" | "mmc_psdproj" | "mmc_dobj" => opMmc op
   | "itml_run" => opItml
   | "cov" | "rca_inner" | "lfda_scatter" => opClosedForm op
   | "wiring" => opWiring
